@@ -39,7 +39,7 @@ SENSITIVITY = {      # seeded defect in the MODEL -> the property TLC must then 
 }
 
 
-def mc_cfg(spec, depth, fee, pf, seeded, amounts, qtys, instants, opids, cashops, invs=(), props=(), view=True, bug="none"):
+def mc_cfg(spec, depth, fee, pf, seeded, amounts, qtys, instants, opids, cashops, invs=(), props=(), view=True, bug="none", badq="FALSE"):
     s = """SPECIFICATION %s
 CONSTANTS
   Assets = {"A", "B"}
@@ -53,8 +53,9 @@ CONSTANTS
   Instants <- %s
   OrderPids <- %s
   CashOps = %s
+  BadQuotes = %s
 CHECK_DEADLOCK FALSE
-""" % (spec, depth, fee, pf, seeded, amounts, qtys, instants, opids, cashops)
+""" % (spec, depth, fee, pf, seeded, amounts, qtys, instants, opids, cashops, badq)
     s = s.replace("@BUG@", bug)
     if depth < 100:
         s += "CONSTRAINT Bound\n"
@@ -76,6 +77,9 @@ def mc_instances(prop, t):
                                "MCAllPids", "TRUE", P["inv"], P["prop"])))
     out.append(("from-empty", mc_cfg("Spec", 4 if q else 6, 1, "FALSE", "FALSE", "MCAmounts", "MCQtysSmall", "MCInstantsSmall",
                                      "MCAllPids", "TRUE", P["inv"], P["prop"])))
+    # a held asset quoted at a non-positive mid: the clock update is refused as a whole (nothing marked, nothing filled)
+    out.append(("bad-quotes", mc_cfg("Spec", 5 if q else 7, 3, "FALSE", "TRUE", "MCAmountsSmall", "MCQtysSmall", "MCInstantsSmall",
+                                     "MCPids", "FALSE", P["inv"], P["prop"], badq="TRUE")))
     # requests made directly on a portfolio (refusals with and without clock movement)
     if prop in ("C15", "C03", "C02", "C01"):
         out.append(("portfolio-level", mc_cfg("Spec", 3 if q else 5, 3, "TRUE", "TRUE", "MCAmountsSmall", "MCQtysSmall",
@@ -85,7 +89,7 @@ def mc_instances(prop, t):
 
 def sim_cfgs():
     return [("sim-broker", mc_cfg("SpecObs", 1000, 3, "FALSE", "TRUE", "MCAmounts", "MCQtys", "MCInstants", "MCAllPids",
-                                  "TRUE", view=False)),
+                                  "TRUE", view=False, badq="TRUE")),
             ("sim-broker-fee2", mc_cfg("SpecObs", 1000, 2, "FALSE", "FALSE", "MCAmounts", "MCQtys", "MCInstants",
                                        "MCAllPids", "TRUE", view=False)),
             ("sim-portfolio-level", mc_cfg("SpecObs", 1000, 3, "TRUE", "TRUE", "MCAmountsSmall", "MCQtysSmall",
